@@ -257,10 +257,10 @@ func nonceOnlyFromScriptSrc(c *Ctx, rule string) {
 	}
 	n := 0
 	for _, fd := range allFuncDecls(p) {
-		if fd.Body == nil || fd.Type.Results == nil || len(fd.Type.Results.List) != 1 {
+		if fd.Body == nil || fd.Type.Results == nil || fd.Type.Results.NumFields() < 1 || fd.Type.Results.NumFields() > 2 {
 			continue
 		}
-		// the parser: returns a string and compares something with the constant "script-src"
+		// the parser: returns a string (possibly with a found flag) and compares something with the constant "script-src"
 		if t := info.TypeOf(fd.Type.Results.List[0].Type); t == nil || !isStringType(t) {
 			continue
 		}
@@ -290,7 +290,7 @@ func nonceOnlyFromScriptSrc(c *Ctx, rule string) {
 				continue
 			}
 			ret := explicitReturn(info, pth.Ret)
-			if len(ret.Results) != 1 {
+			if len(ret.Results) < 1 {
 				continue
 			}
 			r := den.expand(ret.Results[0], pth.Env)
